@@ -171,6 +171,10 @@ func histMore(f []string, node func(string) *gtree.Node, massive bool) (string, 
 			for _, e := range strings.Split(f[1], "+") {
 				kv := strings.SplitN(e, ":", 2)
 				p := unhex(kv[1])
+				if abs := filepath.Join(jail.dir, p); filepath.IsAbs(p) || !strings.HasPrefix(abs, jail.base+string(filepath.Separator)) {
+					// the pre-state is built by the harness itself: never outside its private scratch directory
+					continue
+				}
 				switch kv[0] {
 				case "d":
 					os.MkdirAll(p, 0o755)
